@@ -14,7 +14,9 @@ packet stream and the third-party sample builder / container writer:
   pushed packet is the unmarshalling of bytes the publisher sent) is FALSE for today's code (P22:
   `fetch` unmarshals the whole 1504-byte buffer); it is proved for the repaired `fetch` (`Fixes.fetchSlice`);
 * `lateCheck_*`, `C20_time_monotone` — block times never decrease in the sample timestamp for a fixed
-  origin; `setTimeOffset_can_move_time_back` shows that a sender report can move the origin forward
+  origin; `C20_wrap_only_beyond_2_30`, `C20_old_sample_dropped` — with the repaired late/wrap threshold
+  (`Fixes.lateWide`) the file is closed only for a sample 2^30 ticks or more before the origin;
+  `old_sample_taken_for_wrap` — the pinned threshold closed it for a sample 65759 ticks before it; `setTimeOffset_can_move_time_back` shows that a sender report can move the origin forward
   (the [SR-shift] finding);
 * `C20_shared_origin` — when the remote origins are known, the block time of the packet that sets a
   track's origin is the remote (NTP) time elapsed since the connection's remote origin in ms,
@@ -336,7 +338,7 @@ theorem i32_neg_iff (x : Nat) : i32 x < 0 ↔ two31 ≤ x % two32 := by
   unfold i32 two31 two32
   split <;> omega
 
-theorem lateCheck_ok_iff (o ts : Nat) : lateCheck (some o) ts = .ok ↔ sub32 ts o < two31 := by
+theorem lateCheck_ok_iff (lim o ts : Nat) : lateCheck lim (some o) ts = .ok ↔ sub32 ts o < two31 := by
   have hb := sub32_lt ts o
   unfold lateCheck
   simp only [i32_neg_iff]
@@ -348,24 +350,82 @@ theorem lateCheck_ok_iff (o ts : Nat) : lateCheck (some o) ts = .ok ↔ sub32 ts
   · simp only [h, if_false, true_iff]
     unfold two31 two32 at *; omega
 
-theorem lateCheck_drop_iff (o ts : Nat) :
-    lateCheck (some o) ts = .drop ↔ two31 ≤ sub32 ts o ∧ sub32 o ts < 65536 := by
+/-- a sample is dropped as late iff it is before the origin by less than the threshold `lim`
+(`lateThreshold fx`: 2^16 ticks in the pinned code, 2^30 after the repair `lateWide`) -/
+theorem lateCheck_drop_iff (lim o ts : Nat) :
+    lateCheck lim (some o) ts = .drop ↔ two31 ≤ sub32 ts o ∧ sub32 o ts < lim := by
   have hb := sub32_lt ts o
   unfold lateCheck
   simp only [i32_neg_iff]
   by_cases h : two31 ≤ sub32 ts o % two32
   · have h' : two31 ≤ sub32 ts o := by unfold two31 two32 at *; omega
     simp only [h, if_true, h', true_and]
-    by_cases h2 : sub32 o ts < 65536 <;> simp [h2]
+    by_cases h2 : sub32 o ts < lim <;> simp [h2]
   · have h' : ¬ two31 ≤ sub32 ts o := by unfold two31 two32 at *; omega
     simp [h, h']
+
+/-- the file is closed ("gone around 2^31 timestamps") iff the sample is before the origin by the
+threshold or more -/
+theorem lateCheck_wrap_iff (lim o ts : Nat) :
+    lateCheck lim (some o) ts = .wrap ↔ two31 ≤ sub32 ts o ∧ lim ≤ sub32 o ts := by
+  have hb := sub32_lt ts o
+  unfold lateCheck
+  simp only [i32_neg_iff]
+  by_cases h : two31 ≤ sub32 ts o % two32
+  · have h' : two31 ≤ sub32 ts o := by unfold two31 two32 at *; omega
+    simp only [h, if_true, h', true_and]
+    by_cases h2 : sub32 o ts < lim
+    · simp [h2]
+    · simp only [h2, if_false, true_iff]; omega
+  · have h' : ¬ two31 ≤ sub32 ts o := by unfold two31 two32 at *; omega
+    simp [h, h']
+
+theorem lateThreshold_wide (fx : Fixes) (h : fx.lateWide = true) : lateThreshold fx = 1073741824 := by
+  simp [lateThreshold, h]
+
+theorem lateThreshold_narrow (fx : Fixes) (h : fx.lateWide = false) : lateThreshold fx = 65536 := by
+  simp [lateThreshold, h]
+
+/-- **C20_wrap_only_beyond_2_30** (what the repair `lateWide` buys).  With the repaired threshold
+`writeBuffered` closes the file only for a sample that is at least 2^30 ticks (and, being "before", at most
+2^31) before the origin: more than 3 h of video at 90 kHz, 6 h of audio at 48 kHz — a timestamp that has
+really gone around, never a sample that is merely old (audio recovered from the cache through a long gap,
+a sample overtaken by a sender report that moved the origin). -/
+theorem C20_wrap_only_beyond_2_30 (fx : Fixes) (hfx : fx.lateWide = true) (o ts : Nat)
+    (h : lateCheck (lateThreshold fx) (some o) ts = .wrap) :
+    1073741824 ≤ sub32 o ts ∧ sub32 o ts ≤ two31 := by
+  rw [lateThreshold_wide fx hfx, lateCheck_wrap_iff] at h
+  refine ⟨h.2, ?_⟩
+  have := h.1
+  unfold sub32 two32 two31 at *
+  omega
+
+/-- … and every sample less than 2^30 ticks before the origin is dropped as late, the file stays open -/
+theorem C20_old_sample_dropped (fx : Fixes) (hfx : fx.lateWide = true) (o ts : Nat)
+    (hbefore : two31 ≤ sub32 ts o) (hold : sub32 o ts < 1073741824) :
+    lateCheck (lateThreshold fx) (some o) ts = .drop := by
+  rw [lateThreshold_wide fx hfx, lateCheck_drop_iff]
+  exact ⟨hbefore, hold⟩
+
+/-- the code under test has the repair -/
+theorem codeFixes_lateWide : lateThreshold codeFixes = 1073741824 := by decide
+
+/-- **the old behaviour** (flag off; the history of replays/C20-3e9f528a9b.json, finding
+`old-sample-taken-for-wrap`): the audio origin fixed from the sender reports is 4294899980, the packet
+recovered from the cache has timestamp 4294834221, 65759 ticks (1370 ms at 48 kHz) before it: taken for a
+timestamp wrap, the file is closed.  With the repair the same sample is dropped as late. -/
+theorem old_sample_taken_for_wrap :
+    sub32 4294899980 4294834221 = 65759 ∧
+    lateCheck (lateThreshold {}) (some 4294899980) 4294834221 = .wrap ∧
+    lateCheck (lateThreshold { lateWide := true }) (some 4294899980) 4294834221 = .drop := by decide
 
 /-- **C20_time_monotone.**  Two samples of a track that pass the "late" test against the same
 origin and whose timestamps are in order (`ts2` is at most 2^31 ticks after `ts1`) get block
 times in the same order: within a file, and as long as no sender report moves the origin, block
-times never decrease in the sample timestamp (this includes timestamps that wrap through 2^32). -/
-theorem C20_time_monotone (o ts1 ts2 rate : Nat)
-    (h1 : lateCheck (some o) ts1 = .ok) (h2 : lateCheck (some o) ts2 = .ok)
+times never decrease in the sample timestamp (this includes timestamps that wrap through 2^32).
+(Whatever the late/wrap threshold `lim` is.) -/
+theorem C20_time_monotone (lim o ts1 ts2 rate : Nat)
+    (h1 : lateCheck lim (some o) ts1 = .ok) (h2 : lateCheck lim (some o) ts2 = .ok)
     (hord : sub32 ts2 ts1 < two31) :
     blockTime o ts1 rate ≤ blockTime o ts2 rate := by
   rw [lateCheck_ok_iff] at h1 h2
@@ -376,7 +436,7 @@ theorem C20_time_monotone (o ts1 ts2 rate : Nat)
 
 /-- a sample that is written was not before the origin: its block time is the number of whole
 milliseconds (for a clock rate that is a multiple of 1000) since the origin, below 2^31 ticks -/
-theorem blockTime_bound (o ts rate : Nat) (h : lateCheck (some o) ts = .ok) (hr : 1000 ≤ rate) :
+theorem blockTime_bound (lim o ts rate : Nat) (h : lateCheck lim (some o) ts = .ok) (hr : 1000 ≤ rate) :
     blockTime o ts rate < two31 := by
   rw [lateCheck_ok_iff] at h
   unfold blockTime
@@ -590,8 +650,14 @@ example : gapStep (some 600) 88 = { fetches := [], kfreq := true, last := none }
 example : gapStep (some 600) 89 = { fetches := [], kfreq := false, last := some 600 } := by decide
 -- time: timestamps that wrap through 2^32 keep increasing block times; a sample before the
 -- origin is dropped, one 2^31 away forces a new file
-example : lateCheck (some 4294967000) 200 = .ok ∧ blockTime 4294967000 200 90000 = 5 := by decide
-example : lateCheck (some 1000) 999 = .drop ∧ lateCheck (some 1000) (1000 + two31) = .wrap := by decide
+example : lateCheck (lateThreshold codeFixes) (some 4294967000) 200 = .ok ∧ blockTime 4294967000 200 90000 = 5 := by decide
+example : lateCheck (lateThreshold codeFixes) (some 1000) 999 = .drop ∧
+    lateCheck (lateThreshold codeFixes) (some 1000) (1000 + two31) = .wrap := by decide
+-- the thresholds: 65535 / 65536 ticks before the origin in the pinned code, 2^30 - 1 / 2^30 after the repair
+example : lateCheck (lateThreshold {}) (some 100000) 34465 = .drop ∧ lateCheck (lateThreshold {}) (some 100000) 34464 = .wrap := by decide
+example : lateCheck (lateThreshold codeFixes) (some 100000) 34464 = .drop ∧
+    lateCheck (lateThreshold codeFixes) (some 1073841824) 100001 = .drop ∧
+    lateCheck (lateThreshold codeFixes) (some 1073841824) 100000 = .wrap := by decide
 -- shared origin: 1.5 s after the remote origin is block time 1500 at 48 kHz and at 90 kHz
 example : blockTime (sub32 5 (1500000000 * 48000 / second)) 5 48000 = 1500 ∧
     blockTime (sub32 77 (1500000000 * 90000 / second)) 77 90000 = 1500 := by decide
